@@ -11,6 +11,21 @@ CHECKS = {
          "All 4096 maps {c1,*} x id{1,2,3} -> {absent,\"\",x,y} (empty tables both missing and present) and the repository's own topics.yaml, for client ids {c1,c2,*}, all ids 0..4 and all names: GetTopicName equals the reference precedence; every id GetTopicID returns reads back as the same name; an id is found whenever one resolves to the name.",
          "Go map iteration order cannot be enumerated; by-name lookups are repeated 8 times.",
          "3 C05"),
+ "C07": ("model_checking",
+         "explicit-state breadth-first search over event histories of the real gateway session handler (replay on a fresh instance per transition, state = private snapshot + monitor)",
+         "BFS (quick depth 6, thorough depth 9 or fixpoint) over client/broker event histories of one real handler1 with authentication off and on; alphabet = one datagram of every MQTT-SN message type plus CONNECT/DISCONNECT/AUTH/PUBLISH variants and broker CONNACK(0/5) (only in answer to a CONNECT); the monitor checks in every state: CONNACK(accepted) and any relayed packet only after a broker-accepted CONNECT (QoS -1 exception with auth off), and any other packet before that ends the session.",
+         "Default schedule within one event; the broker model only answers CONNECTs it received; in-memory conns stand for UDP/TCP.",
+         "3 C07"),
+ "C08": ("model_checking",
+         "explicit-state BFS over all orderings of connect-exchange packets on the real handler, 6 configurations",
+         "BFS (depth 5 / 7) over all orderings of CONNECT/AUTH/WILLTOPIC/WILLMSG variants and broker CONNACKs for auth on/off x configured credentials {none, user+password, user only}; per-exchange monitor: with auth on a CONNECT needs a well-formed PLAIN AUTH of this exchange and carries its credentials; with auth off it carries exactly the configured ones; unknown method => CONNACK not-supported and no CONNECT afterwards.",
+         "Default schedule; where several AUTH packets occur in one exchange the credentials of any of them are accepted (the statement does not say which counts).",
+         "3 C08"),
+ "C09": ("model_checking",
+         "explicit-state BFS over all orderings of connect-exchange packets on the real handler (same state space as C08)",
+         "Same exploration as C08 with the will-protocol monitor: WILLTOPICREQ/WILLMSGREQ only with the Will flag and in order, MQTT CONNECT only after WILLMSG and carrying the client's will data, at most one MQTT CONNECT per exchange, CONNACK translated (accepted iff broker accepted, else congestion; keep-alive 0 => not supported).",
+         "Default schedule; repeated CONNECT exchanges on one connection are the project's deliberate behaviour: only the first broker answer of an exchange is judged.",
+         "3 C09"),
  "C18": ("model_checking",
          "stateless model checking of the real transactions code: all interleavings within a preemption bound under a cooperative scheduler (virtual timers as choices)",
          "Every interleaving (within the stated preemption bound; quick 3, thorough iterates 3..8) of Success/Fail/Proceed/timer expiry/cancellation threads on the real RetryTransaction and TimedTransaction, with a monitor evaluated at every scheduling step (Done closes once, Err constant afterwards, completion callback exactly once, no retry callback after Done, no panic). This is the level at which the property is stated: it quantifies over schedules.",
